@@ -168,12 +168,12 @@ def wrap_problem(pb, log):
     return q
 
 
-def call(q, log):
+def call(q, log, callback=None):
     from cobyqa import minimize
     log.take()
     # (warnings are silenced once, in the main thread, by run(): catch_warnings is not thread-safe)
     try:
-        res = minimize(q["fun"], q["x0"], args=q.get("args", ()), bounds=q["bounds"], constraints=q["constraints"], options=q["options"])
+        res = minimize(q["fun"], q["x0"], args=q.get("args", ()), bounds=q["bounds"], constraints=q["constraints"], callback=callback, options=q["options"])
         out = ("result", canon({k: res[k] for k in sorted(res.keys())}))
     except Exception as exc:  # noqa
         out = ("raised", type(exc).__name__, str(exc)[:200])
@@ -294,6 +294,41 @@ def explore(rng, n_problems, thread_counts):
         elif (o1, l1) != (o3, l3):
             fails.append((d, "a second call with equal arguments gives a different result or evaluation sequence", {}))
         ref.append((d, o1, l1))
+    # callbacks that live for one call only (closures, bound methods, of both conventions, created and dropped in turn):
+    # nothing a call learnt about its callback may serve the next call
+    class _H:
+        def __init__(self, got):
+            self.got = got
+
+        def on_xk(self, xk):
+            self.got.append(type(xk).__name__)
+
+        def on_ir(self, intermediate_result):
+            self.got.append(type(intermediate_result).__name__)
+    stats["short_lived_callbacks"] = 0
+    for d, o1, l1 in ref[:6]:
+        if o1[0] != "result":
+            continue
+        for kind in ["ir", "xk", "m_ir", "m_xk", "xk", "ir", "m_xk", "m_ir"]:
+            got = []
+            if kind == "xk":
+                cb = (lambda g: (lambda xk: g.append(type(xk).__name__)))(got)                                 # noqa: E731
+            elif kind == "ir":
+                cb = (lambda g: (lambda intermediate_result: g.append(type(intermediate_result).__name__)))(got)
+            else:
+                cb = _H(got).on_xk if kind == "m_xk" else _H(got).on_ir
+            log = Log()
+            o, l = call(wrap_problem(build(d), log), log, callback=cb)
+            del cb
+            stats["short_lived_callbacks"] += 1
+            want = "ndarray" if kind.endswith("xk") else "OptimizeResult"
+            if any(g != want for g in got) or o[0] != "result":
+                fails.append((d, f"a short-lived callback asking for {want} was invoked in the convention of an earlier call's callback" if o[0] == "result" else
+                              f"a call with a short-lived callback raised {o[1:]} after calls with callbacks of the other convention", {"callback_sequence": True}))
+                break
+            if (o, l) != (o1, l1):
+                fails.append((d, "a call with an observing callback differs from the same call without one", {"callback_sequence": True}))
+                break
     state1 = package_state()
     ch = diff_state(state0, state1)
     if ch:
